@@ -391,6 +391,17 @@ func (nr *netRun) checkC11(x *xfer) {
 			continue
 		}
 		n, c := op.Node, op.Call
+		// a pause/resume that races with the same application's close of the channel (the close cancels the transport
+		// request under it): whichever wins, the channel is being torn down - not judged
+		racingClose := false
+		for _, o2 := range nr.ops {
+			if o2.X == x && o2.Node == n && (o2.Kind == "Close" || o2.Kind == "CloseWithError") && o2.Call.S0 <= c.S1 && (!o2.Call.Returned || o2.Call.S1 >= c.S0) {
+				racingClose = true
+			}
+		}
+		if racingClose {
+			continue
+		}
 		wantReq := n == nr.A
 		paused := op.Kind == "Pause"
 		r.Probe("pause-resume-checked")
@@ -546,9 +557,11 @@ func (nr *netRun) checkC11(x *xfer) {
 							pB = e.Step
 						}
 					}
-					for _, e := range nr.A.EventsOf(x.chid) {
-						if e.Code == datatransfer.PauseResponder && pA < 0 {
-							pA = e.Step // the first time the initiator heard of a pause
+					// the earliest moment the initiator can have heard of a pause: when the responder handed its first pause
+					// notice to a carrier (the initiator's own announcement of PauseResponder lags behind the receipt)
+					for _, w := range nr.B.Wire {
+						if (w.Dir == "send" || w.Dir == "sent") && !w.Sum.Req && w.Sum.Paused && w.Sum.TID == x.chid.ID && (pA < 0 || w.Step < pA) {
+							pA = w.Step
 						}
 					}
 					sentBefore, recvAfter := false, false
